@@ -25,7 +25,7 @@ RND = bytes(random.Random(7).getrandbits(8) for _ in range(100000))
 PREGZ = gzip.compress(b'pre-compressed by the application, very repetitive ' * 20000, 6)
 BADCOOKIES = {'ok200cookie1': 'clastic_cookie=QUJD?k\xe9=InYi', 'ok200cookie2': 'clastic_cookie=QUJ?a=InYi',
               'ok200cookie3': 'clastic_cookie=not-a-cookie-at-all; other=1'}
-SCENARIOS = ['ok200pregz', 'ok200cookie1', 'ok200cookie2', 'ok200cookie3', 'ok200vary', 'ok200prof', 'ok200', 'ok200big', 'ok200random', 'ok200empty', 'ctx', 'ctxbig', 'head', 'redirect', 'raise404', 'ret404',
+SCENARIOS = ['post200', 'ok200pregz', 'ok200cookie1', 'ok200cookie2', 'ok200cookie3', 'ok200vary', 'ok200prof', 'ok200', 'ok200big', 'ok200random', 'ok200empty', 'ctx', 'ctxbig', 'head', 'redirect', 'raise404', 'ret404',
              'nb404', 'unknown404', 'wrong405', 'raise503', 'ret418', 'uncaught500']
 
 
@@ -40,8 +40,10 @@ def make_mw(name):
     from clastic.middleware.form import PostDataMiddleware
     return {'gzip': lambda: GzipMiddleware(), 'cache': lambda: HTTPCacheMiddleware(), 'stats': lambda: StatsMiddleware(),
             'profile': lambda: SimpleProfileMiddleware(), 'cookie': lambda: SignedCookieMiddleware(secret_key=b'k'),
-            'ctxproc': lambda: ContextProcessor(), 'getparam': lambda: GetParamMiddleware(['gp']),
-            'postdata': lambda: PostDataMiddleware(['pd']), 'scriptroot': lambda: ScriptRootMiddleware()}[name]()
+            'ctxproc': lambda: ContextProcessor(),
+            # the parameter extractors declare a converting type; requests carry text that type rejects
+            'getparam': lambda: GetParamMiddleware({'gp': int}),
+            'postdata': lambda: PostDataMiddleware({'pd': int, 'price': float}), 'scriptroot': lambda: ScriptRootMiddleware()}[name]()
 
 
 def build(stack):
@@ -72,6 +74,7 @@ def build(stack):
         r.headers['Content-Encoding'] = 'gzip'      # the application serves a pre-compressed payload
         return r
     routes = [('/ok200', lambda: Response(b'small body', mimetype='text/plain')),
+              POST('/post200', lambda: Response(b'posted ok', mimetype='text/plain')),
               ('/ok200pregz', pregz),
               ('/ok200vary', with_vary),
               ('/ok200prof', lambda: Response(b'profiler not triggered', mimetype='text/plain')),
@@ -97,9 +100,13 @@ def request(app, scen, ae):
     path = '/' + scen if scen != 'unknown404' else '/no/such/url'
     if scen in BADCOOKIES:
         path = '/ok200'
-    method = 'HEAD' if scen == 'head' else 'GET'
+    method = 'HEAD' if scen == 'head' else ('POST' if scen == 'post200' else 'GET')
     # a sort key for the profiler WITHOUT its trigger parameter: the profiler must stay out of the way
-    env = create_environ(path, method=method, query_string='_prof_sort=calls' if scen == 'ok200prof' else None)
+    qs = '_prof_sort=calls' if scen == 'ok200prof' else ('gp=notanint&gp=7' if scen in ('ok200', 'post200', 'ctx') else None)
+    kw = {}
+    if scen == 'post200':
+        kw = {'data': b'pd=three&price=9,50&other=1', 'content_type': 'application/x-www-form-urlencoded'}
+    env = create_environ(path, method=method, query_string=qs, **kw)
     if AE_HEADER[ae] is not None:
         env['HTTP_ACCEPT_ENCODING'] = AE_HEADER[ae]
     if scen in BADCOOKIES:
